@@ -260,11 +260,32 @@ def run(ctx):
     r1.check(ok, ctx.construct(pc, extra='per-trigger isolation'),
              'a failing trigger is not isolated (try/except per trigger '
              'with the context reset in finally)', ctx.loc(pc))
+    # ... and nothing that can fail for one trigger is computed for all of
+    # them before the loop: the listing hands the rows over as they are
+    gl = prog.func(TRG + '.get_next_cron_triggers')
+    n_bad = []
+    for lp in [x for x in own_nodes(gl.node)
+               if isinstance(x, (ast.For, ast.ListComp, ast.GeneratorExp,
+                                 ast.SetComp, ast.DictComp))]:
+        for c in ast.walk(lp):
+            if isinstance(c, ast.Call) and \
+                    (dotted(c.func) or '').split('.')[0] != 'LOG':
+                n_bad.append(c)
+    r1.check(not n_bad and U.phas(gl.node, 'db_api.get_next_cron_triggers(___)'),
+             ctx.construct(gl, extra='nothing per trigger before the loop'),
+             'the listing of due triggers computes something per trigger '
+             '(%s) outside the per-trigger try/except of the processing '
+             'loop: one trigger it fails for (a one-shot without a pattern) '
+             'aborts every pass before any trigger is processed'
+             % (norm(n_bad[0]) if n_bad else ''),
+             ctx.loc(gl, n_bad[0] if n_bad else None))
 
     # ---- R2 CAS on what was read, addressed to the row that was read ---------
     r2 = ctx.rule('R2', 'advance is a compare-and-swap on the '
                   'next_execution_time that was read, on that very row',
                   'GD')
+    from mstatic.rules import shared as _shc
+    _shc.cas_primitive_reports_loss(ctx, r2)
     ad = prog.func(PER + '.advance_cron_trigger')
     cfg = ctx.cfg(ad)
     up = U.calls_in(cfg, 'update_cron_trigger')
@@ -350,6 +371,8 @@ def run(ctx):
                   'listed as due (not re-read), the advance commits before '
                   'the workflow is started, next times are computed in UTC',
                   'GD/WMW')
+    from mstatic.rules import shared as _shr
+    _shr.retried_functions_rerunnable(ctx, r5)
     tp = ad.params[0]
     rebind = [x for x in own_nodes(ad.node)
               if isinstance(x, (ast.Assign, ast.AugAssign, ast.AnnAssign)) and
